@@ -145,6 +145,9 @@ def run_one_case(mod, ctx, index):
         in_lib = any("/discopy/" in f.filename for f in tb)
         ctx.fail("uncaught-exception", exception=type(err).__name__,
                  message=str(err)[:500], where=where, raised_in_library=in_lib)
+    l1 = getattr(ctx, "l1", None)
+    if l1 is not None:
+        l1.end_of_case()
 
 
 def worker(args):
@@ -160,6 +163,7 @@ def worker(args):
     if getattr(mod, "L1", True):
         l1 = instrument.ConstructorMonitor(ctx, violate=getattr(mod, "L1_VIOLATES", False))
         l1.arm()
+        ctx.l1 = l1
     if hasattr(mod, "setup"):
         mod.setup(ctx)
     t0 = time.time()
@@ -402,6 +406,7 @@ def replay(args):
     if getattr(mod, "L1", True):
         l1 = instrument.ConstructorMonitor(ctx, violate=getattr(mod, "L1_VIOLATES", False))
         l1.arm()
+        ctx.l1 = l1
     if hasattr(mod, "setup"):
         mod.setup(ctx)
     run_one_case(mod, ctx, case["index"])
